@@ -1,4 +1,7 @@
 """Poly1305 (C05) and ChaCha20-Poly1305 (C06, C07) harness families."""
+import os, sys
+sys.path.insert(0, os.path.dirname(os.path.dirname(os.path.abspath(__file__))))
+import mirsym_extra
 OVERLAYS = [
     ("src/poly1305.rs", "verif_poly", "poly1305.rs", None, "crate::poly1305"),
     ("src/chacha20poly1305.rs", "verif_aead", "aead.rs", None, "crate::chacha20poly1305"),
@@ -9,8 +12,8 @@ PROPS = {
         level="model_checking",
         bounds="new: all 2^256 keys; input: one call from an ARBITRARY context (leftover 0..=15, any buffer/accumulator) with data of symbolic length 0..=48; "
                "finish: all accumulators in the limb invariant I_h (h0,h2,h3,h4 < 2^26, h1 < 2^26+2^7) x all pads, all staged lengths 0..=15",
-        outside="block(): the limb multiplication h*r mod 2^130-5 is not decidable by SAT (symbolic x symbolic multipliers); it is the mirsym Int-engine obligation "
-                "(listed in the evidence when that engine has run); input() lengths > 48 in ONE call (more blocks of the same loop)",
+        outside="input() lengths > 48 in ONE call (more blocks of the same loop); composition of the step lemmas into 'tag == RFC 8439 polynomial' is the two-line induction "
+                "of DESIGN.md 4/C05",
         assumptions=["stub (input/finish framing harnesses): Poly1305::block -> recorder logging its 16 message bytes and the finalized flag, returning an arbitrary accumulator",
                      "limb invariant I_h assumed for finish (new/reset give 0; block() re-establishes it: mirsym obligation)"],
         trusted=["spec_tag(): 128-bit reference of ((sum h_i 2^26i) mod 2^130-5) + s in harness/incrate/poly1305.rs"],
@@ -18,7 +21,9 @@ PROPS = {
         level_text="Clamping and limb split for every key; the 16-byte staging buffer as one inductive step from an arbitrary context (so every chunking feeds "
                    "block() the same 16-byte sequence); final partial-block framing (0x01 marker, zero fill, hibit off); final carry / conditional subtraction "
                    "of 2^130-5 / + s mod 2^128 for EVERY accumulator in the limb invariant (all values in [p, 2^130) included) against a 128-bit reference.",
-        level_note="block()'s limb multiplication is outside CBMC's reach (mirsym Int obligation). input() step bound: 48 bytes per call.",
+        level_note="block() is decided by the mirsym engine (z3 over a polynomial encoding of its MIR) for all accumulators in I_h, all clamped r, all 16-byte blocks: "
+                   "no overflow in any checked operation, I_h preserved, value congruence mod 2^130-5. input() step bound: 48 bytes per call.",
+        extra=[mirsym_extra.make_extra("C05")],
     ),
 }
 
